@@ -19,6 +19,7 @@ use serde_json::{json, Value};
 mod cli;
 mod common;
 mod fam_array;
+mod fam_arraymem;
 mod fam_cli;
 mod fam_cliargs;
 mod fam_container;
@@ -79,6 +80,7 @@ fn family(name: &str) -> Option<Runner> {
     }
     Some(match name {
         "array" => fam_array::run,
+        "arraymem" => fam_arraymem::run,
         "cli" => fam_cli::run,
         "cliargs" => fam_cliargs::run,
         "container" => fam_container::run,
